@@ -652,55 +652,3 @@ pub fn run_child_exe(exe: &std::path::Path, mode: &str, input: &Value, timeout: 
     res
 }
 
-// -------------------------------------------------------------------------------------------------
-// coverage-guided fuzzing: the fuzzer's bytes are the entropy of the proptest strategy (PassThrough RNG), so every
-// fuzz target reuses the strategy and the oracle of its property
-
-/// returns Err(reason) on a violation (after writing the replay file); known findings and excluded cases are Ok
-pub fn fuzz_case<S, V>(id: &str, sub: &str, data: &[u8], strat: &S, eval: impl Fn(&V) -> Eval) -> Result<(), String>
-where
-    S: Strategy<Value = V>,
-    V: Serialize + std::fmt::Debug,
-{
-    use proptest::strategy::ValueTree;
-    if data.len() < 8 {
-        return Ok(());
-    }
-    // proptest's pass-through generator returns zeros once the bytes are used up, and rand's rejection sampling of a
-    // non-power-of-two range never accepts an all-zero stream: the input is therefore followed by a fixed pseudo-random tail
-    static TAIL: std::sync::OnceLock<Vec<u8>> = std::sync::OnceLock::new();
-    let tail = TAIL.get_or_init(|| {
-        let mut r = SmRng::new(0x7A11);
-        (0..(1usize << 15)).flat_map(|_| r.next_u64().to_le_bytes()).collect()
-    });
-    let mut bytes = Vec::with_capacity(data.len() + tail.len());
-    bytes.extend_from_slice(data);
-    bytes.extend_from_slice(tail);
-    let mut runner = TestRunner::new_with_rng(Config { failure_persistence: None, ..Config::default() }, TestRng::from_seed(RngAlgorithm::PassThrough, &bytes));
-    let case = match strat.new_tree(&mut runner) {
-        Ok(t) => t.current(),
-        Err(_) => return Ok(()),
-    };
-    let r = match catch(|| eval(&case)) {
-        Ok(r) => r,
-        Err(p) => Err(Fail::new(format!("panic: {}", p))),
-    };
-    match r {
-        Ok(_) => Ok(()),
-        Err(f) => {
-            if let Some(sig) = &f.signature {
-                let ctx = Ctx::new(id, Tier::Thorough, 0);
-                if ctx.open_finding(sig).is_some() {
-                    return Ok(());
-                }
-            }
-            let payload = json!({"property": id, "sub": sub, "reason": f.reason, "case": case, "found_by": "libFuzzer"});
-            let text = serde_json::to_string_pretty(&payload).unwrap();
-            let dir = verif_root().join("replays");
-            let _ = std::fs::create_dir_all(&dir);
-            let path = dir.join(format!("{}-{}-fuzz-{:016x}.json", id, sub, hash_str(&text)));
-            let _ = std::fs::write(&path, text);
-            Err(format!("{} [{}] replay written to {}", f.reason, sub, path.display()))
-        }
-    }
-}
